@@ -20,6 +20,7 @@ SSWU_S = {'fn': MOD + '.SSWU', 'op': 'sswu', 'params': ['in'], 'results': ['new'
 SUMM = FIELD_SUMM + [SQRT_SUMM, SSWU_S]
 NAMES = {0: 'HashToGroup', 1: 'EncodeToGroup'}
 PROBE = '(*' + MOD + '.Element).addAffine3Iso2'
+LAYCOMBOS = [(3, 16), (0, 1), (64, 255), (3, 256)]   # extra buffer layouts: spare capacity, window, message and DST adjacent in one frame (both orders)
 
 
 def asserts(ids):
@@ -43,8 +44,20 @@ class HLower(PolyLower):
         return super().body(i, n)
 
 
-def check_one(ck, r, fn, m, d, failures):
-    tag = 'C08.%s.m%d.d%d' % (NAMES[fn], m, d)
+def byte_names(m, d, lay):
+    if lay == 1:
+        return ['msgbuf_%d' % i for i in range(m)], ['dstbuf_%d' % i for i in range(d)]
+    if lay == 2:
+        return ['msgbuf_%d' % (3 + i) for i in range(m)], ['dstbuf_%d' % (2 + i) for i in range(d)]
+    if lay == 3:
+        return ['frame_%d' % i for i in range(m)], ['frame_%d' % (m + i) for i in range(d)]
+    if lay == 4:
+        return ['frame_%d' % (d + i) for i in range(m)], ['frame_%d' % i for i in range(d)]
+    return ['msg_%d' % i for i in range(m)], ['dst_%d' % i for i in range(d)]
+
+
+def check_one(ck, r, fn, m, d, failures, lay=0):
+    tag = 'C08.%s.m%d.d%d' % (NAMES[fn], m, d) + ('.layout%d' % lay if lay else '')
     ok = len(r.paths) == 1 and r.paths[0]['end'] == 'return'
     if not ck.ground(tag + '.shape', 'single returning path: no content-dependent branch, no panic', ok, str([(p['end'], p.get('panic') or p.get('err')) for p in r.paths][:2])):
         failures.append(tag)
@@ -59,8 +72,9 @@ def check_one(ck, r, fn, m, d, failures):
         return
     for n in h2f:
         low.emit([n['id']])
-    mn, _ = ensure_vars(r, low, ['msg_%d' % i for i in range(m)], 8)
-    dn, _ = ensure_vars(r, low, ['dst_%d' % i for i in range(d)], 8)
+    mnames, dnames = byte_names(m, d, lay)
+    mn, _ = ensure_vars(r, low, mnames, 8)
+    dn, _ = ensure_vars(r, low, dnames, 8)
     ref = expand_message_xmd(low, mn, dn, 48 * want)
     goals = []
     for k, n in enumerate(h2f):
@@ -138,7 +152,7 @@ def check_one(ck, r, fn, m, d, failures):
     a3 = ck.prove_batch(lb.all(), g3, timeout=90)
     failures += [g[0] for g, a in zip(g3, a3) if a != 'unsat']
     inputs = {n['n'].rsplit('_', 1)[0] for n in r.nodes if n['op'] == 'var'}
-    if not ck.ground(tag + '.deterministic', 'the result depends on nothing but msg and DST bytes (no other input, no global state read)', inputs <= {'msg', 'dst'}, str(inputs)):
+    if not ck.ground(tag + '.deterministic', 'the result depends on nothing but msg and DST bytes (no other input, no global state read)', inputs <= {'msg', 'dst', 'msgbuf', 'dstbuf', 'frame'}, str(inputs)):
         failures.append(tag)
     if not ck.ground(tag + '.fresh', 'a fresh element is returned; msg and DST are not written', bool(o['efresh'].get('fresh')) and not p['writes'], str(p['writes'][:1])):
         failures.append(tag + '.write')
@@ -156,6 +170,9 @@ def run(tier, seed):
     for fn in (0, 1):
         for (m, d) in combos:
             jobs.append({'id': 'h%d_%d_%d' % (fn, m, d), 'harness': 'vh_hash', 'args': [fn, m, d, 0], 'summaries': SUMM, 'probes': [PROBE]})
+        for lay in (1, 2, 3, 4):
+            for (m, d) in LAYCOMBOS:
+                jobs.append({'id': 'h%d_%d_%d_L%d' % (fn, m, d, lay), 'harness': 'vh_hash', 'args': [fn, m, d, lay], 'summaries': SUMM, 'probes': [PROBE]})
         for isnil in (0, 1):
             jobs.append({'id': 'nodst%d_%d' % (fn, isnil), 'harness': 'vh_hash_nodst', 'args': [fn, 3, isnil], 'summaries': SUMM})
         jobs.append({'id': 'nilmsg%d' % fn, 'harness': 'vh_hash_nilmsg', 'args': [fn, 16], 'summaries': SUMM})
@@ -167,7 +184,7 @@ def run(tier, seed):
                   'RFC 9380: iso_map is a homomorphism, so iso(Q0\' + Q1\') = iso(Q0\') + iso(Q1\') as section 3 defines hash_to_curve; clear_cofactor is the identity (h = 1)',
                   'SSWU = RFC F.2 (C11), HashToFieldElement = OS2IP mod p (C12), field contracts (C12)']
     ck.assumptions = ['message and DST contents arbitrary; lengths from the table']
-    ck.bounds = {'(msg length, DST length) pairs': len(combos), 'msg lengths': ms, 'DST lengths': ds if tier == 'quick' else '1..300'}
+    ck.bounds = {'buffer layouts': 'len=cap for every pair; spare capacity / window / msg+DST adjacent in one frame (both orders) for %s' % LAYCOMBOS, '(msg length, DST length) pairs': len(combos), 'msg lengths': ms, 'DST lengths': ds if tier == 'quick' else '1..300'}
     ck.outside = ['lengths outside the table', 'SHA-256 internals',
                   'inputs whose two SSWU images share an x-coordinate (affine chord formula degenerate): reachable only through a SHA-256 output nobody can exhibit; the polynomial identity holds there too but the chord rule is then not the group law']
     from props import C12
@@ -175,6 +192,10 @@ def run(tier, seed):
     failures = []
     with core.ThreadPoolExecutor(max_workers=4) as ex:
         list(ex.map(lambda a: check_one(ck, R_['h%d_%d_%d' % (a[0], a[1][0], a[1][1])], a[0], a[1][0], a[1][1], failures), [(fn, c) for fn in (0, 1) for c in combos]))
+    for fn in (0, 1):
+        for lay in (1, 2, 3, 4):
+            for (m, d) in LAYCOMBOS:
+                check_one(ck, R_['h%d_%d_%d_L%d' % (fn, m, d, lay)], fn, m, d, failures, lay)
     for fn in (0, 1):
         for isnil in (0, 1):
             r = R_['nodst%d_%d' % (fn, isnil)]
@@ -205,6 +226,11 @@ def battery(ck, failures, combos):
     for (m, d) in sorted(set(combos))[:80]:
         for op in ('RO', 'NU'):
             cases.append({'kind': 'h2c', 'op': op, 'a': ''.join('%02x' % rng.getrandbits(8) for _ in range(m)), 'b': ''.join('%02x' % rng.getrandbits(8) for _ in range(d))})
+    from props.C08 import LAYCOMBOS as LC
+    for lay in (1, 2, 3, 4):
+        for (m, d) in LC:
+            for op in ('RO', 'NU'):
+                cases.append({'kind': 'h2-layout', 'op': op, 'n': lay, 'a': ''.join('%02x' % rng.getrandbits(8) for _ in range(m)), 'b': ''.join('%02x' % rng.getrandbits(8) for _ in range(d))})
     cases.append({'kind': 'h2-panic', 'a': 'aa', 'b': '', 'n': 0})
     cases.append({'kind': 'h2-panic', 'a': 'aa', 'b': '', 'n': 1})
     for (m, d) in [(0, 1), (3, 16), (64, 255), (64, 256), (5, 300)]:
